@@ -138,12 +138,24 @@ def letters_mixed(rng):
     return u
 
 
+def hyphen_family(rng):
+    """spellings around a stem that already holds a hyphen: the revision is what follows the LAST hyphen, so writing an
+    implied `-0` out (or leaving it out) changes which part is the revision"""
+    stem = rng.choice(('1-2', '1.0-1', '2-0', '1-2-3', '1.0-0', '1-0', '3~a-1'))
+    s = stem + rng.choice(('', '', '-0', '-00', '-0-0', '-1', '-0~', '-0+'))
+    if rng.random() < 0.25:
+        s = rng.choice(('0:', '00:', '1:')) + s
+    return s
+
+
 def lists(rng, n):
     for _ in range(n):
         k = rng.choice((0, 1, 2, 2, 3, 3, 3, 4, 4, 5, 6))
         r = rng.random()
-        if r < 0.4:
+        if r < 0.32:
             vs = [class_version(rng) for _ in range(k)]
+        elif r < 0.4:
+            vs = [hyphen_family(rng) for _ in range(k)]
         elif r < 0.5:
             vs = [dotted_numeric(rng) for _ in range(k)]
         elif r < 0.6:
